@@ -91,3 +91,31 @@ def outcome(rule_name, make):
         except Exception as e:  # noqa
             res.append(("EXC", type(e).__name__ + ": " + str(e)[:200]))
     return res
+
+
+def warmup():
+    """exercise every rule the way a long run does (construct, validate a minimal tree of every element in both modes,
+    probe insertion indexes with allowed and foreign names), so that state carried between calls is populated"""
+    from . import treegen
+    from metapype.eml import validate as V
+    T = treegen.tables()
+    for e in sorted(T.known):
+        Node.store.clear()
+        try:
+            t = treegen.build(T.min_spec(e))
+            V.tree(t)
+            V.tree(t, [])
+            r = R.get_rule(e)
+            for c in ("title", "zzForeign", "para"):
+                r.is_allowed_child(c)
+                try:
+                    r.child_insert_index(t, Node(c))
+                except Exception:  # noqa
+                    pass
+            bad = Node(e)
+            bad.add_child(Node("zzForeign"))
+            bad.add_attribute("zzForeign", "1")
+            V.node(bad, [])
+        except Exception:  # noqa
+            pass
+    Node.store.clear()
